@@ -261,6 +261,7 @@ func runC13(c *Ctx) {
 		m := extractPratt(s.P)
 		prattParselets(s, m)
 	})
+	c.shared("R9", "C14/R2", "a quoted literal denotes exactly its characters wherever it stands in the program, at its very start and end included: the command line hands the program argument to the interpreter as it is (no stripping of `leftover` shell quotes)", keyHas("program-text"), c14R2)
 	c13NewlineFlag(c)
 	c13Operators(c)
 	c13Blanks(c)
